@@ -1,0 +1,13 @@
+//go:build verif
+
+package set
+
+// VerifBuckets returns a copy of the hash buckets of the set, for the
+// verification harness in /verif (build tag "verif"). Read-only.
+func (s Set[T]) VerifBuckets() map[int][]T {
+	out := make(map[int][]T, len(s.vals))
+	for h, b := range s.vals {
+		out[h] = append([]T(nil), b...)
+	}
+	return out
+}
